@@ -266,6 +266,15 @@ extern "C" void h_lpf_readvalue_rat()
    else vp_assert(g_txt_calls == 0, 6);
 #else
    if(!l.digits) vp_assert(v == (r.c[p] == '-' ? -1 : 1), 3);
+   else
+   {
+      // the value is the conversion of exactly the reference literal (malformed literals, for which the conversion throws, are
+      // reported by the real function with a warning: no value to compare)
+      char lit[TXT]; for(int i = 0; i < l.len; ++i) lit[i] = (char)r.c[p + i]; lit[l.len] = '\0';
+      bool have = true; Rat e;
+      try { e = ratFromString(lit); } catch(...) { have = false; }
+      if(have) vp_assert(v == e, 4);
+   }
 #endif
    for(int i = 0; i <= g_n; ++i) vp_assert((int)b[i] == r.c[i], 7);
    vp_cover(1);
@@ -309,9 +318,11 @@ static void readcolname()
    int expect = g_ns_known ? g_ns_size : (withcol ? g_ns_size : -1);
    vp_assert(idx == expect, 3);
 #ifdef VP_NATIVE
-   vp_assert(ns->num() == g_ns_size + ((g_ns_known || withcol) ? 1 : 0), 4);
-   if(g_ns_known || withcol) vp_assert(ns->number(tok) == g_ns_size, 5);
-   vp_assert(cs->num() == cols0 + ((!g_ns_known && withcol) ? 1 : 0), 6);
+   // (ids as in the solver build: 4 = the lookup used exactly the token, 5 = insertion happened iff unknown and emptycol given,
+   //  6 = the inserted name is exactly the token)
+   vp_assert(ns->num() == g_ns_size + ((g_ns_known || withcol) ? 1 : 0) && (!g_ns_known || idx == g_ns_size), 4);
+   vp_assert(cs->num() == cols0 + ((!g_ns_known && withcol) ? 1 : 0), 5);
+   if(g_ns_known || withcol) vp_assert(ns->number(tok) == g_ns_size, 6);
 #else
    vp_assert(g_ns_number_calls == 1 && same_text(g_txt, r, p, len), 4);          // lookup with exactly the token
    vp_assert(g_ns_add_calls == ((!g_ns_known && withcol) ? 1 : 0), 5);
@@ -560,7 +571,8 @@ extern "C" void h_lpf_hasrowname()
          vp_assert(h, 5);
 #ifdef VP_NATIVE
          char tok[TXT]; for(int i = srt; i <= end; ++i) tok[i - srt] = (char)r.c[i]; tok[end - srt + 1] = '\0';
-         if(withset) vp_assert(ns->num() == 1 && ns->number(tok) == 0, 6);
+         vp_assert(ns->num() == withset, 6);
+         if(withset) vp_assert(ns->number(tok) == 0, 7);
 #else
          vp_assert(g_ns_add_calls == withset, 6);
          if(withset) vp_assert(same_text(g_addtxt, r, srt, end - srt + 1), 7);
